@@ -687,3 +687,22 @@ package queue
 //@   modifies durable, txOpen, txPending, signals
 //@   ensures [C01:nil_implies_committed] result == nil ==> durable > old(durable)
 //@   ensures [C01:no_transaction_left_open] !txOpen && txPending == 0
+
+// ---- C01/C15: SQLite EnqueueBatch is one transaction: nil only after COMMIT of every insert, error commits none of them ----
+
+//@ func (*SQLiteStore).EnqueueBatch$1
+//@   requires s != nil && conn != nil
+//@   modifies durable, txOpen, txPending
+//@   ensures [C01:rollback_unless_committed] (committed ==> durable == old(durable) && txOpen == old(txOpen) && txPending == old(txPending)) && (!committed ==> durable == old(durable) && txPending == 0 && !txOpen)
+
+//@ func (*SQLiteStore).EnqueueBatch
+//@   requires s != nil && s.db != nil && !txOpen && txPending == 0
+//@   label P after call maybePrune
+//@   modifies durable, txOpen, txPending, signals
+//@   loop 1 invariant [no_sql_while_preparing] !txOpen && txPending == 0 && durable == at(P, durable) && signals == old(signals) && rangeindex < len(items) && len(prepared) == rangeindex + 1
+//@   loop 2 invariant [evictions_inside_the_transaction] txOpen && txPending >= 0 && durable == at(P, durable) && signals == old(signals) && !committed && len(prepared) == len(items)
+//@   loop 3 invariant [inserts_inside_the_transaction] txOpen && durable == at(P, durable) && signals == old(signals) && !committed && rangeindex < len(prepared) && txPending >= rangeindex + 1 && len(prepared) == len(items)
+//@   calls signal requires [C01:signal_only_after_commit] durable >= at(P, durable) + len(items) && !txOpen
+//@   ensures [C01:nil_implies_every_insert_committed_together] result1 == nil && len(items) > 0 ==> durable >= at(P, durable) + len(items) && result0 == len(items)
+//@   ensures [C01:error_implies_no_insert_committed] result1 != nil ==> durable == at(P, durable) && result0 == 0
+//@   ensures [C01:no_transaction_left_open] !txOpen && txPending == 0
